@@ -500,6 +500,15 @@ def archive_contracts(ge_returns_for):
         generator=True, raises=[],
         ensures=[("at-most-one-dispatch-to-get_extractor(basename)-with-path=archive!/member", pe_dispatch)],
         note="an archive member is handed to exactly the extractor the router gives for its base name"))
+    # (round 7) the accessor behind the two wrappers under its own contract: it hands out exactly the router's two entry
+    # points -- a pair made of router.is_supported_file and router.get_extractor; in a record (NamedTuple / dataclass / dict
+    # holder) the component NAMED after an entry point IS that entry point (function identity = (module, qualified name) of a
+    # module-level def) -- and raises nothing.  `inline=True`: the wrappers keep executing the real body in place (the wrappers' own functional contracts do
+    # not rest on this one -- it is an additional, separately refutable obligation on the accessor).
+    out.append(FnContract(
+        target=f"{ARCH}::{ACCESSOR}", params=[], inline=True, raises=[], total=True,
+        ensures=[("hands-out-exactly-the-router's-two-entry-points", accessor_post)],
+        note="the archive extractor's cached router accessor hands out the router's two entry points (under their own names in a record)"))
     # The two cache wrappers are modular lemmas for their callers.  When a wrapper no longer exists under that name (renamed,
     # merged, inlined) there is nothing to prove about it: its callers (_should_skip_file, _process_archive_entry) are then
     # verified with the body of whatever they call instead (helpers without contract are executed in place).
@@ -507,7 +516,38 @@ def archive_contracts(ge_returns_for):
     return [c for c in out if c.target.split("::")[1] not in OPTIONAL_WRAPPERS or c.target.split("::")[1] in have]
 
 
-OPTIONAL_WRAPPERS = ("_is_supported_file_cached", "_get_file_extractor_cached")
+ACCESSOR = "_get_router_functions"
+OPTIONAL_WRAPPERS = ("_is_supported_file_cached", "_get_file_extractor_cached", ACCESSOR)
+
+
+def _is_router_fn(v, name):
+    from pyvc.values import VFunc
+    return isinstance(v, VFunc) and v.how == "repo" and v.a == ROUTER and v.b == name
+
+
+def accessor_post(c):
+    """result of the router accessor: by position (tuple / NamedTuple: the wrappers unpack it) and by name (NamedTuple /
+    dataclass / dict holder: the wrappers read `.is_supported_file` / `.get_extractor`).  A shape that is none of these cannot
+    be stated here (Unsupported -> UNKNOWN-SHAPE: undecided, never a violation by itself)."""
+    from pyvc.values import VNamedTuple, VRef
+    r = c.result
+    want = list(ENTRY_POINTS)
+    if isinstance(r, VTuple):
+        # which position holds which entry point is the accessor's private convention with its callers (decided on the
+        # wrappers' contracts, which execute this body in place): here, the two components are the router's two entry points
+        ok = len(r.items) == 2 and any(all(_is_router_fn(v, n) for v, n in zip(r.items, order)) for order in (want, want[::-1]))
+        if isinstance(r, VNamedTuple):
+            named = dict(zip(r.names, r.items))
+            ok = ok and all(_is_router_fn(named[n], n) for n in want if n in named)
+        return z3.BoolVal(bool(ok))
+    if isinstance(r, VRef):
+        o = c.st.obj(r.ref)
+        if o.kind in ("obj", "dict") and isinstance(o.data, dict):
+            have = {k: v for k, v in o.data.items() if k in want}
+            if not have:
+                raise ops.Unsupported("holder object without a field named after a router entry point")
+            return z3.BoolVal(len(have) == 2 and all(_is_router_fn(v, k) for k, v in have.items()))
+    raise ops.Unsupported(f"result of the router accessor is not a tuple / record ({type(r).__name__})")
 
 
 def absent_wrappers(repo, tier):
